@@ -56,6 +56,8 @@ def cases(ctx, n):
         R = rng.choice([192, 192, 480, 100, 96, 3, 1])
         groups = ig.gen_groups(rng, R, rng.choice([1, 2, 3, 5, 8, 14]))
         lines = ig.section_lines(rng, groups, R)
+        if rng.random() < 0.25:
+            lines = [ig.exotic_line(rng, l) if rng.random() < 0.6 else l for l in lines]
         tm = ig.gen_tempo(rng, R, groups[-1]["tick"])
         header = rng.choice(["ExpertSingle", "ExpertSingle", "HardDoubleBass", "EasyDrums", "MediumGHLGuitar"])
         out.append(make_case(R, tm, groups, lines, header))
